@@ -176,7 +176,7 @@ def run(ctx):
   ctx.model('MC_LMNN', 'MC_LMNN.cfg', workers=4)
   rng = np.random.default_rng(ctx.seed + 10)
   rs = []
-  for i in range(48 if ctx.quick else 600):
+  for i in range(48 if ctx.quick else 2400):
     rs.append(dict(algo=['NCA', 'MLKR', 'LMNN'][i % 3], seed=int(rng.integers(1 << 30))))
   ctx.rule = ('real NCA / MLKR / LMNN fits on random well-formed (X, y) (y real for MLKR), n_components None or 1..d, every init '
               'option, n_neighbors 1..2, regularization in {1/4,1/2,3/4}, learn_rate, {zero optimiser iterations, a few}; one '
